@@ -134,6 +134,13 @@ impl Ck {
                         used.push(c.get());
                     }
                     self.uses(&used, local, &here);
+                    // an aggregation collapses the rows of each partition: from here on the relation has exactly
+                    // the partition columns and the aggregated computes; no other column of the pipeline exists
+                    // any more (unlike a Select, which only hides columns that a later sort may still use)
+                    local.clear();
+                    for c in partition.iter().chain(compute.iter()) {
+                        local.insert(c.get());
+                    }
                 }
                 Transform::Sort(s) => {
                     sort_cids(s, &mut used);
